@@ -3,7 +3,7 @@ import random
 
 from ..boot import CLOCK
 from ..core import derive_seed
-from ..e1 import Case, Monitor, run_case
+from ..e1 import Case, CommandDriver, Monitor, run_case
 from ..gen import atoms
 from ..monitors import InvariantMonitor
 from .common import (
@@ -20,8 +20,10 @@ RULE = (
     'so that some instances are past expiry at start-up, some expire during '
     'the run and some only after a forward clock jump injected at a seeded '
     'main-loop iteration, + outcome plan with retries and failures + seeded '
-    'schedule. Every status change to expired is checked (the task was '
-    'waiting, not manually triggered, and the clock the scheduler reads had '
+    'schedule; in a third of the cases the default queue is limited to 1 and '
+    'a waiting clock-expire task is triggered by command (it then waits in '
+    'the queue), followed in some runs by a reload. Every status change to expired is checked (the task was '
+    'waiting, had not been triggered by a command, and the clock the scheduler reads had '
     'passed point + offset); no job is launched for an expired instance; at '
     'the end of the iteration each child of the expired output per the '
     'model is in the pool or has run. Distinct = distinct (program, epoch, '
@@ -32,7 +34,7 @@ TIERS = {
     'quick': {'n': 800, 'budget_s': 420, 'chunk': 10},
     'thorough': {'n': 16000, 'budget_s': 3000, 'chunk': 25},
 }
-EXPECTED_PROBES = ['task_expired', 'expire_task_ran', 'clock_jump',
+EXPECTED_PROBES = ['expire_task_triggered', 'task_expired', 'expire_task_ran', 'clock_jump',
                    'expired_while_retrying', 'expire_children_spawned']
 KNOBS = {'datetime': 1.0, 'n_tasks': (2, 5), 'span': (3, 6),
          'p_retries': 0.4, 'p_runahead': 0.3}
@@ -79,6 +81,17 @@ class ExpireWatch(Monitor):
             if old != 'waiting':
                 res.violate('non_waiting_task_expired', {
                     'task': ident, 'from': old})
+            if ident in getattr(self, 'triggered', ()) and not any(
+                    f'{k[0]}/{k[1]}' == ident and
+                    lt >= self.triggered[ident] - 1e-9
+                    for lt, k in res.world.launch_log):
+                # (triggered and not yet submitted since: once its job has
+                # been submitted the trigger is spent, and a later retry
+                # waits like any other task)
+                res.violate('manually_triggered_task_expired', {
+                    'task': ident, 'triggered_at': self.triggered[ident],
+                    'expired_at': t, 'commands': [
+                        (d[0], d[3]) for d in getattr(res, 'commands_done', [])]})
             if task.clock_expire is None:
                 res.violate('task_without_clock_expire_expired', {'task': ident})
             else:
@@ -127,6 +140,35 @@ class ExpireWatch(Monitor):
                 res.sim.probe('expire_task_ran')
 
 
+class TrigDriver(CommandDriver):
+    """Triggers a pooled waiting clock-expire task (picked at injection
+    time); a reload may follow."""
+
+    def __init__(self, schedule, watch, manual):
+        super().__init__(schedule)
+        self.watch = watch
+        self.manual = manual
+
+    def resolve(self, h, c):
+        if 'pick' not in c:
+            return c['kwargs']
+        prog = self.watch.res.prog
+        cand = sorted(
+            i.identity for i in h.schd.pool.get_tasks()
+            if i.state.status == 'waiting' and i.tdef.name in prog.tasks
+            and prog.tasks[i.tdef.name].clock_expire is not None)
+        if not cand:
+            return None
+        ident = cand[int(c['pick'] * len(cand)) % len(cand)]
+        self.watch.triggered[ident] = CLOCK.t
+        cyc, name = ident.split('/')
+        self.manual.add((name, prog.ppoint(cyc)))
+        self.watch.res.sim.probe('expire_task_triggered')
+        kw = dict(c['kwargs'])
+        kw['tasks'] = [ident]
+        return kw
+
+
 def prog_hook(prog, rng):
     names = list(prog.tasks)
     chosen = rng.sample(names, min(len(names), rng.randint(1, 2)))
@@ -163,9 +205,29 @@ def run(params):
     case.epoch = prog.point_epoch(k) + off * 3600.0 - rng.choice(
         [-20.0, 5.0, 15.0, 40.0, 300.0])
     jump_iters = sorted(rng.sample(range(3, 40), rng.randint(0, 2)))
-    inv = InvariantMonitor()
+    with_cmds = seed % 3 == 0
+    manual = set()
+    inv = InvariantMonitor(manual=manual, commands=with_cmds)
     ew = ExpireWatch()
     ew.inv = inv
+    ew.triggered = {}
+    mons = []
+    if with_cmds:
+        # a full queue keeps a triggered task waiting (queued), where a
+        # clock-expire check could wrongly catch it; a reload may follow
+        prog.queues = {'default': (1, [])}
+        it = rng.randint(1, 14)
+        cmds = [{'iter': it, 'slot': rng.randint(0, 1),
+                 'name': 'force_trigger_tasks', 'pick': rng.random(),
+                 'kwargs': {'flow': []}}]
+        if rng.random() < 0.6:
+            cmds.append({'iter': it + rng.randint(0, 2), 'slot': 1,
+                         'name': 'reload_workflow', 'kwargs': {}})
+        if rng.random() < 0.4:
+            cmds.append({'iter': it + rng.randint(2, 8), 'slot': 0,
+                         'name': 'force_trigger_tasks', 'pick': rng.random(),
+                         'kwargs': {'flow': []}})
+        mons.append(TrigDriver(cmds, ew, manual))
     prog.inactivity_timeout = 'P5D'    # clock jumps must not trip it
 
     def expired_truth():
@@ -188,11 +250,13 @@ def run(params):
                 return rng.choice([3600.0, 6 * 3600.0, 13 * 3600.0])
             return 0
         h.stall_gap = gap
-    res = run_case(case, monitors=[LaunchMonitor(truth_extra=expired_truth), inv, ew],
-                   setup=setup)
+    res = run_case(case, monitors=[
+        LaunchMonitor(truth_extra=expired_truth, manual=manual,
+                      check_prereqs=not with_cmds), inv, ew] + mons,
+        setup=setup)
     if res.error:
         return {'error': res.error, 'violations': [], 'stats': {}}
-    if unexpected_stop(res.stops[-1]):
+    if unexpected_stop(res.stops[-1]) and not with_cmds:
         res.violate('scheduler_aborted_unexpectedly', {
             'stop': res.stops[-1], 'log_tail': res.log_tail[-5:],
             'property': 'C03'})
